@@ -17,6 +17,7 @@ POOL = {
     "O": ("One", "o", ("only",), str),
     "I": ("Idx", "i", (7,), None),
     "Y": ("Year", "k", (1991, 1989, 1990), int),  # consecutive range, listed unsorted
+    "M": ("Mixed", "m", ("pre-1990", 1990, 2000), None),  # untyped items of mixed type (in memory only)
     "G": ("Age", "g", (9, 10, 11), int),  # as text ("10" < "11" < "9") ordered differently than as numbers
 }
 
